@@ -189,6 +189,7 @@ class SysRun:
             me.emit("qapp", name, a if isinstance(a, int) else 0, a if isinstance(a, str) else "", op, th,
                     [x if isinstance(x, int) else 0 for x in dq], src)
         sched.observers.append(observe)
+        sched.on_stall = lambda name, d: me.emit("stall", name, d)
         for dname, ops in sorted(cfg["drivers"].items()):
           sched.spawn(dname, self.driver, dname, ops)
         sched.policy = self.policy
@@ -197,7 +198,7 @@ class SysRun:
         res = {"outcome": out, "ev": self.ev, "errors": sched.errors, "blocked": sched.blocked(), "steps": sched.steps,
                "alive": alive, "horizon": self.policy.time_limit if self.policy.time_limit is not None else -1,
                "drivers_done": all(vt.state == "done" for vt in sched.threads if vt.name in cfg["drivers"]),
-               "schedule": [c[0] for c in sched.choices], "end_time": self.now()}
+               "schedule": [c[0] for c in sched.choices], "end_time": self.now(), "stalls": list(sched.stalls)}
       finally:
         mh.HsmWithQueues.QUEUE_SIZE = old_qs
         if cfg.get("tcap") is not None:
